@@ -8,7 +8,7 @@ HARNESS = os.path.join(flexrun.VERIF, 'harness')
 
 class Config:
     def __init__(self, backend='nr', topt=('-Cem',), interactive=None, array=False, reject=False,
-                 yymore=False, stack=False, lineno=False, eof_scs=(), sanitize=True, stdio=False):
+                 yymore=False, stack=False, lineno=False, eof_scs=(), sanitize=True, stdio=False, ledger=False):
         self.backend = backend
         self.topt = list(topt)
         self.interactive = interactive      # None / True / False
@@ -20,11 +20,12 @@ class Config:
         self.eof_scs = list(eof_scs)
         self.sanitize = sanitize
         self.stdio = stdio
+        self.ledger = ledger
 
     def key(self):
-        return '%s %s I=%s arr=%d rej=%d more=%d stk=%d ln=%d eof=%s stdio=%d' % (
+        return '%s %s I=%s arr=%d rej=%d more=%d stk=%d ln=%d eof=%s stdio=%d led=%d' % (
             self.backend, ''.join(self.topt), self.interactive, self.array, self.reject, self.yymore,
-            self.stack, self.lineno, self.eof_scs, self.stdio)
+            self.stack, self.lineno, self.eof_scs, self.stdio, self.ledger)
 
 
 def lex_text(rs, cfg, rng, vary=True):
@@ -37,6 +38,8 @@ def lex_text(rs, cfg, rng, vary=True):
         defs.append('#define FV_USE_STACK 1')
     if cfg.stdio:
         defs.append('#define FV_STDIO 1')
+    if cfg.ledger:
+        defs.append('#define FV_LEDGER 1')
     top = '%top{\n' + '\n'.join(defs) + '\n#include "fvh.h"\n}\n'
     opts = []
     if cfg.backend == 'r':
@@ -51,6 +54,8 @@ def lex_text(rs, cfg, rng, vary=True):
         opts.append('stack')
     if cfg.lineno:
         opts.append('yylineno')
+    if cfg.ledger:
+        opts += ['noyyalloc', 'noyyrealloc', 'noyyfree']
     if cfg.interactive is True:
         opts.append('interactive')
     elif cfg.interactive is False:
@@ -87,7 +92,7 @@ def build_scanner(flex, flexsrc, workdir, name, rs, cfg, lex_seed=0, flex_timeou
     b['table_lines'] = tl
     b['flags'] = flags
     b['var_rules'] = flexrun.var_rules_of(t)
-    cc = ['gcc', '-w', '-O0', '-g', '-I', HARNESS, '-I', flexsrc, cf, '-o', exe]
+    cc = ['gcc', '-w', '-O0', '-g', '-D_GNU_SOURCE', '-I', HARNESS, '-I', flexsrc, cf, '-o', exe]
     if cfg.sanitize:
         cc[1:1] = ['-fsanitize=address,undefined', '-fno-sanitize-recover=all']
     p = subprocess.run(cc, stdout=subprocess.PIPE, stderr=subprocess.STDOUT, text=True)
@@ -100,7 +105,7 @@ def build_scanner(flex, flexsrc, workdir, name, rs, cfg, lex_seed=0, flex_timeou
 
 
 def case_text(rs, build, cfg, srcs, main, acts=None, wraps=None, sched=None, bufsize=16384,
-              maxevents=20000):
+              maxevents=20000, eofact=None, eacts=None, readerr=None, eintr=None, allocfail=None):
     lines = rs.case_lines(build.get('var_rules', ())) + build['table_lines']
     for i, s in enumerate(srcs):
         lines.append('src %d %s' % (i, bytes(s).hex()))
@@ -113,10 +118,21 @@ def case_text(rs, build, cfg, srcs, main, acts=None, wraps=None, sched=None, buf
     lines.append('reentrant %d' % (1 if cfg.backend in ('r', 'c99') else 0))
     if cfg.eof_scs:
         lines.append('eofscs ' + ' '.join(str(s) for s in cfg.eof_scs))
+    if readerr:
+        lines.append('readerr ' + ' '.join(str(x) for x in readerr))
+    if eintr:
+        lines.append('eintr ' + ' '.join(str(x) for x in eintr))
+    if allocfail is not None:
+        lines.append('allocfail %d' % allocfail)
+    if eofact:
+        lines.append('eofact ' + ' '.join(eofact))
     lines.append('main ' + ' '.join(main))
     for k, a in sorted((acts or {}).items()):
         if a:
             lines.append('act %d %s' % (k, ' '.join(a)))
+    for k, a in sorted((eacts or {}).items()):
+        if a:
+            lines.append('eact %d %s' % (k, ' '.join(a)))
     if wraps:
         lines.append('wrap ' + ' '.join('-' if w is None else str(w) for w in wraps))
     return '\n'.join(lines) + '\n'
@@ -135,8 +151,16 @@ def run_real(exe, casefile, timeout=20):
                            stderr=subprocess.PIPE, timeout=timeout, env=env)
     except subprocess.TimeoutExpired:
         return {'rc': -999, 'out': [], 'err': 'timeout'}
+    err = p.stderr.decode('latin1')
+    stats = {}
+    import re as _re
+    m = _re.search(r'^stats (.*)$', err, _re.M)
+    if m:
+        for kv in m.group(1).split():
+            k, v = kv.split('=')
+            stats[k] = int(v)
     return {'rc': p.returncode, 'out': p.stdout.decode('latin1').split('\n'),
-            'err': _clip(p.stderr.decode('latin1'))}
+            'err': _clip(err), 'stats': stats}
 
 
 def run_model(casefile, spec=False, timeout=60):
